@@ -60,7 +60,10 @@ DERIVE = COORDS + [
     "face_face_connectivity", "face_areas", "bounds", "edge_node_distances", "edge_face_distances", "antimeridian_face_indices",
     "hole_edge_indices", "edge_node_z", "face_jacobian",
 ]
-SETTERS = COORDS + ["face_node_connectivity", "edge_node_connectivity", "n_nodes_per_face", "face_areas", "node_face_connectivity", "face_face_connectivity"]
+SETTERS = COORDS + [
+    "face_node_connectivity", "edge_node_connectivity", "n_nodes_per_face", "face_areas", "node_face_connectivity", "face_face_connectivity",
+    "edge_face_connectivity", "face_edge_connectivity", "edge_node_distances", "edge_face_distances", "bounds",
+]
 EXPORTS = [
     {"what": "to_xarray", "fmt": "ugrid"},
     {"what": "to_xarray", "fmt": "ugrid"},
